@@ -12,9 +12,21 @@
   The choices of the AMF are `Spec.Amf.Choice` (RAND, SQN, AMF field, ngKSI, AMF-UE-NGAP-ID); its identity (name, region, set,
   pointer, capacity, slice) is the fixed one of the scripted peer of the correspondence harness (harness/peer/build.go) — the
   property does not quantify over it. `none` = the specification encoders do not encode (a value outside its constraints).
+
+  C02 — the downlink side of the procedures after registration (section "after registration" below), same encoders plus
+  Spec/SetupRequest.lean (TS 24.501 8.3.2 / 8.2.11 and the X.691 encoding of the TS 38.413 9.3.4.1 transfer):
+
+      DLE  PDU SESSION RESOURCE SETUP REQUEST (9.2.1.1) [ item: PDU session ID, NAS-PDU = DL NAS TRANSPORT (8.2.11) carrying
+           PDU SESSION ESTABLISHMENT ACCEPT (8.3.2) with the assigned IPv4 address, type 2; S-NSSAI; transfer with the assigned
+           GTP tunnel (UPF address, TEID) ]
+      DLS  INITIAL CONTEXT SETUP REQUEST [ SERVICE ACCEPT (8.2.17) with the PDU session status, type 2 ]
+      DLD1 DOWNLINK NAS TRANSPORT [ DEREGISTRATION ACCEPT (8.2.13), type 2 ]
+      DLD2 UE CONTEXT RELEASE COMMAND (9.2.2.5): UE NGAP ID pair, cause NAS / deregister
+  PDU session release: this AMF sends nothing the emulator reads (`ReleasePDU` does not read; the scripted peer's default).
   Core Lean only.
 -/
 import Stgutg.Spec.Amf
+import Stgutg.Spec.SetupRequest
 
 namespace Stgutg.Spec.AmfDl
 open Stgutg Stgutg.Aper Stgutg.Spec.Ts24501
@@ -138,5 +150,91 @@ def dl (P : Prims) (cfg : Spec.Amf.Cfg) (j : Nat) (ch : Spec.Amf.Choice) (ran : 
   let d4 ← ngap (initialContextSetupRequest ch.amfUeNgapId ran plmn (kgnb P aka.kamf) pn.2.1)
   let d5 ← ngap (downlinkNasTransport ch.amfUeNgapId ran pn.2.2)
   pure [d1, d2, d3, d4, d5]
+
+/-! ### after registration: PDU session establishment, service request, de-registration (C02) -/
+
+/-- PDU SESSION RESOURCE SETUP REQUEST (TS 38.413 9.2.1.1): AMF-UE-NGAP-ID, RAN-UE-NGAP-ID, setup list with one item —
+    PDU session ID, NAS-PDU, S-NSSAI, PDUSessionResourceSetupRequestTransfer (an OCTET STRING holding the transfer's encoding) -/
+def pduSessionResourceSetupRequest (amf ran psi : Int) (nas transfer : Bytes) : Val :=
+  pduV 1 29 reject 52 12 [
+    ieV 10 reject 5 1 (.struct [.int amf]),
+    ieV 85 reject 5 2 (.struct [.int ran]),
+    ieV 74 reject 5 5 (.struct [.slice [.struct [.struct [.int psi], .ptr (.struct [.octs nas]), snssaiV, .octs transfer, .nil]]])]
+
+/-- UE CONTEXT RELEASE COMMAND (9.2.2.5): UE NGAP IDs (the pair), cause = NAS / deregister -/
+def ueContextReleaseCommand (amf ran : Int) : Val :=
+  pduV 1 41 reject 52 16 [
+    ieV 114 reject 2 1 (choiceV 3 1 (.struct [.struct [.int amf], .struct [.int ran], .nil])),
+    ieV 15 ignore 2 2 (choiceV 6 3 (.struct [.enum 2]))]
+
+/-- the S-NSSAI of the AMF's identity as a NAS value part: SST 1, SD 010203 -/
+def snssaiNas : Bytes := [1, 1, 2, 3]
+
+/-- "internet" as a DNN value part (one label) -/
+def dnnInternet : Bytes := [8, 105, 110, 116, 101, 114, 110, 101, 116]
+
+/-- 8.3.2 PDU SESSION ESTABLISHMENT ACCEPT for the requested session (PSI and PTI of the request): SSC mode 1, IPv4, one default
+    QoS rule (QFI 1), session-AMBR 100 Mbit/s both ways, the ASSIGNED IPv4 address `ueIp`, S-NSSAI, DNN -/
+def establishmentAccept (psi pti : Nat) (ueIp : Bytes) : Spec.SetupRequest.Accept :=
+  { psi := UInt8.ofNat psi, pti := UInt8.ofNat pti, sscAndType := 0x11,
+    qosRules := [0x01, 0x00, 0x06, 0x31, 0x31, 0x01, 0x01, 0xff, 0x01], ambr := [0x06, 0x00, 0x64, 0x06, 0x00, 0x64],
+    pduAddress := some (Spec.SetupRequest.pduAddressV4 ueIp), snssai := some snssaiNas, dnn := some dnnInternet }
+
+/-- 8.2.11 DL NAS TRANSPORT: payload container type N1 SM information, the accept, PDU session ID -/
+def dlNasTransportAccept (psi pti : Nat) (ueIp : Bytes) : Bytes :=
+  Spec.SetupRequest.DlNasTransport.encode
+    { pct := 1, payload := (establishmentAccept psi pti ueIp).encode, psi2 := some (UInt8.ofNat psi) }
+
+/-- TS 38.413 9.3.4.1 PDUSessionResourceSetupRequestTransfer: session AMBR, the ASSIGNED uplink tunnel (UPF address, TEID as
+    four octets), PDU session type IPv4, one QoS flow (QFI 1, 5QI 9, ARP 8) -/
+def setupTransfer (upfIp : Bytes) (teid : Nat) : Spec.SetupRequest.Transfer :=
+  { ambr := some (100000000, 100000000), tla := upfIp, teid := natBE 4 teid, pduType := some 0,
+    qos := some [{ qfi := 1, fiveQI := 9, arp := 8, cap := 0, vul := 0 }] }
+
+/-- 8.2.17 SERVICE ACCEPT with the PDU session status (IEI 50): the bit of the UE's session set -/
+def serviceAccept (psi : Nat) : SMsg :=
+  { mand := [[0x7E], [0x00], [0x4E]], opt := [(0x50, [UInt8.ofNat (2 ^ psi % 256), UInt8.ofNat (2 ^ psi / 256)])] }
+
+/-- 8.2.13 DEREGISTRATION ACCEPT (UE originating de-registration) -/
+def deregistrationAccept : SMsg := { mand := [[0x7E], [0x00], [0x46]], opt := [] }
+
+/-- K_gNB (TS 33.501 A.9) for the uplink NAS COUNT of the Service Request -/
+def kgnbAt (P : Prims) (kamf : Bytes) (ulCount : Nat) : Bytes :=
+  Spec.Ts33501A.kdf P.hmac kamf 0x6E [natBE 4 ulCount, [0x01]]
+
+/-- the security context of the network's vector: the selected algorithms and the NAS keys -/
+def ctxOf (aka : Spec.Ts33501A.Aka) : Spec.NasSecurity.SecCtx :=
+  { ia := Spec.Amf.selectedIa, ea := Spec.Amf.selectedEa, kNasInt := aka.knasInt, kNasEnc := aka.knasEnc }
+
+/-- a NAS message integrity protected and ciphered (type 2) by the AMF under the DL NAS COUNT `dlCount` -/
+def protectAt (P : Prims) (ctx : Spec.NasSecurity.SecCtx) (dlCount : Nat) (plain : Bytes) : Option Bytes :=
+  (Spec.NasSecurity.amfProtect P ctx ⟨dlCount⟩ 0 0x7E 2 plain).2.2
+
+/-- DLE: what the AMF/SMF answers to the PDU SESSION ESTABLISHMENT REQUEST (PSI `psi`, PTI `pti`) of subscriber `j`, the NAS
+    message under the DL NAS COUNT `dlCount`: the address, TEID and UPF address are those of the choice `ch` -/
+def dlEstablish (P : Prims) (cfg : Spec.Amf.Cfg) (j : Nat) (ch : Spec.Amf.Choice) (ran : Int) (psi pti dlCount : Nat) :
+    Option Bytes := do
+  let aka ← Spec.Amf.vector P cfg j ch
+  let n ← protectAt P (ctxOf aka) dlCount (dlNasTransportAccept psi pti ch.ueIp)
+  ngap (pduSessionResourceSetupRequest ch.amfUeNgapId ran psi n (setupTransfer ch.upfIp ch.teid).encode)
+
+/-- DLS: what the AMF answers to the SERVICE REQUEST received under the UL NAS COUNT `ulCount` -/
+def dlService (P : Prims) (cfg : Spec.Amf.Cfg) (j : Nat) (ch : Spec.Amf.Choice) (ran : Int) (psi ulCount dlCount : Nat) :
+    Option Bytes := do
+  let plmn ← Spec.Amf.plmnOf cfg
+  let aka ← Spec.Amf.vector P cfg j ch
+  let sa ← nas Spec.Ts24501.serviceAccept (serviceAccept psi)
+  let n ← protectAt P (ctxOf aka) dlCount sa
+  ngap (initialContextSetupRequest ch.amfUeNgapId ran plmn (kgnbAt P aka.kamf ulCount) n)
+
+/-- DLD1, DLD2: what the AMF answers to the DEREGISTRATION REQUEST -/
+def dlDeregister (P : Prims) (cfg : Spec.Amf.Cfg) (j : Nat) (ch : Spec.Amf.Choice) (ran : Int) (dlCount : Nat) :
+    Option (Bytes × Bytes) := do
+  let aka ← Spec.Amf.vector P cfg j ch
+  let da ← nas Spec.Ts24501.deregistrationAcceptUEOriginating deregistrationAccept
+  let n ← protectAt P (ctxOf aka) dlCount da
+  let d1 ← ngap (downlinkNasTransport ch.amfUeNgapId ran n)
+  let d2 ← ngap (ueContextReleaseCommand ch.amfUeNgapId ran)
+  pure (d1, d2)
 
 end Stgutg.Spec.AmfDl
